@@ -33,6 +33,12 @@ pub fn verif_dir() -> PathBuf {
     PathBuf::from(std::env::var("VERIF_DIR").unwrap_or_else(|_| "/verif".into()))
 }
 
+/// Where evidence and newly found replays are written (differs from verif_dir() only in
+/// scratch-repository experiments).
+pub fn out_dir() -> PathBuf {
+    std::env::var("VERIF_OUT").map(PathBuf::from).unwrap_or_else(|_| verif_dir())
+}
+
 // ---------------------------------------------------------------- PRNG
 
 /// SplitMix64: deterministic, seedable, used for content attached to enumerated shapes and as the
@@ -302,6 +308,26 @@ impl KnownFindings {
                 }
             }
         }
+        let mut frags: Vec<PathBuf> = std::fs::read_dir(verif_dir().join("known_findings.d"))
+            .map(|it| it.filter_map(|e| e.ok()).map(|e| e.path()).filter(|p| p.extension().map(|x| x == "json").unwrap_or(false)).collect())
+            .unwrap_or_default();
+        frags.sort();
+        for p in frags {
+            if let Ok(t) = std::fs::read_to_string(&p) {
+                if let Ok(Value::Array(a)) = serde_json::from_str::<Value>(&t) {
+                    for e in a {
+                        all.push(KnownFinding {
+                            property: e["property"].as_str().unwrap_or("").into(),
+                            id: e["id"].as_str().unwrap_or("").into(),
+                            status: e["status"].as_str().unwrap_or("").into(),
+                            what: e["what"].as_str().unwrap_or("").into(),
+                            replay: e["replay"].as_str().map(|s| s.to_string()),
+                            raw: e.clone(),
+                        });
+                    }
+                }
+            }
+        }
         KnownFindings { all, active: HashSet::new() }
     }
     pub fn for_property(&self, prop: &str) -> Vec<KnownFinding> {
@@ -383,7 +409,7 @@ impl Ctx {
     /// Writes a replay file for a failure and returns its path (relative to /verif).
     pub fn write_replay(&self, f: &Failure) -> String {
         let h = fnv64(format!("{}|{}", f.fingerprint, f.case).as_bytes());
-        let dir = verif_dir().join("replays").join(&self.property).join("found");
+        let dir = out_dir().join("replays").join(&self.property).join("found");
         let _ = std::fs::create_dir_all(&dir);
         let rel = format!("replays/{}/found/{:016x}.json", self.property, h);
         let doc = json!({
@@ -393,7 +419,10 @@ impl Ctx {
             "case": f.case,
             "failure": {"rule": f.rule, "fingerprint": f.fingerprint, "detail": f.detail},
         });
-        let _ = std::fs::write(verif_dir().join(&rel), serde_json::to_string_pretty(&doc).unwrap());
+        let _ = std::fs::write(out_dir().join(&rel), serde_json::to_string_pretty(&doc).unwrap());
+        if out_dir() != verif_dir() {
+            return out_dir().join(&rel).display().to_string();
+        }
         rel
     }
 
@@ -439,7 +468,7 @@ impl Ctx {
             "wall_s": (wall * 1000.0).round() / 1000.0,
             "violations": viol,
         });
-        let dir = verif_dir().join("evidence");
+        let dir = out_dir().join("evidence");
         let _ = std::fs::create_dir_all(&dir);
         let p = dir.join(format!("{}.json", self.property));
         std::fs::write(&p, serde_json::to_string_pretty(&ev).unwrap()).expect("write evidence");
@@ -605,4 +634,101 @@ pub fn list_replays(prop: &str, sub: &str) -> Vec<String> {
         .unwrap_or_default();
     v.sort();
     v
+}
+
+// ---------------------------------------------------------------- generic driver
+
+pub type RunFn = fn(&mut Ctx);
+pub type ReplayFn = fn(&Value, &KnownFindings) -> Result<(), Failure>;
+
+pub struct Prop {
+    pub id: &'static str,
+    pub run: RunFn,
+    pub replay: ReplayFn,
+}
+
+/// Generic driver shared by all properties:
+///  1. `--replay F`: re-execute one saved case through the oracle (strict: nothing tolerated).
+///  2. otherwise: decide which open known findings are still active (their saved replay still
+///     fails with the listed fingerprint), replay every regression input, then run the search.
+pub fn dispatch(args: &Args, table: Vec<Prop>) -> i32 {
+    let Some(p) = table.into_iter().find(|p| p.id == args.property) else {
+        eprintln!("unknown property {}", args.property);
+        return 2;
+    };
+    if let Some(path) = &args.replay {
+        let case = match load_case(path) {
+            Ok(c) => c,
+            Err(e) => {
+                eprintln!("{e}");
+                return 2;
+            }
+        };
+        let none = KnownFindings::default();
+        return match catch(|| (p.replay)(&case, &none)) {
+            Ok(Ok(())) => {
+                println!("replay {path}: property held");
+                0
+            }
+            Ok(Err(f)) => {
+                println!("VIOLATION property={} replay={}", p.id, path);
+                println!("  rule={} fingerprint={}", f.rule, f.fingerprint);
+                println!("  detail: {}", f.detail);
+                1
+            }
+            Err(pm) => {
+                println!("VIOLATION property={} replay={}", p.id, path);
+                println!("  harness panic: {pm}");
+                1
+            }
+        };
+    }
+    let mut ctx = Ctx::new(p.id, args.tier, args.seed);
+    // known findings: active iff open and the saved input still fails with the listed fingerprint
+    let none = KnownFindings::default();
+    for k in ctx.kf.for_property(p.id) {
+        let Some(rp) = &k.replay else { continue };
+        let case = match load_case(rp) {
+            Ok(c) => c,
+            Err(e) => {
+                eprintln!("known finding {}: {e}", k.id);
+                return 2;
+            }
+        };
+        let want_fp = k.raw["fingerprint"].as_str().unwrap_or("").to_string();
+        let r = catch(|| (p.replay)(&case, &none));
+        let failing = match r {
+            Ok(Ok(())) => None,
+            Ok(Err(f)) => Some(f),
+            Err(pm) => Some(Failure::panic(case.clone(), &pm)),
+        };
+        match (k.status.as_str(), failing) {
+            ("open", Some(f)) if f.fingerprint == want_fp => {
+                ctx.kf.active.insert(k.id.clone());
+            }
+            ("open", Some(f)) => {
+                // fails, but differently from what is listed: report it
+                ctx.stats.fail(f);
+            }
+            ("open", None) => {}
+            (_, Some(f)) => {
+                // a fixed finding has come back
+                ctx.stats.fail(f);
+            }
+            (_, None) => {}
+        }
+    }
+    for rp in list_replays(p.id, "regress") {
+        if let Ok(case) = load_case(&rp) {
+            ctx.stats.class("regression-replays");
+            let kf = ctx.kf.clone();
+            match catch(|| (p.replay)(&case, &kf)) {
+                Ok(Ok(())) => {}
+                Ok(Err(f)) => ctx.stats.fail(f),
+                Err(pm) => ctx.stats.fail(Failure::panic(case.clone(), &pm)),
+            }
+        }
+    }
+    (p.run)(&mut ctx);
+    ctx.finish()
 }
